@@ -984,11 +984,15 @@ class _BulkUDCompileState(_ORMDMLState):
         return result
 
     @classmethod
-    def _eval_condition_from_statement(cls, update_options, statement):
+    def _eval_condition_from_statement(
+        cls, update_options, statement, params=None
+    ):
         mapper = update_options._subject_mapper
         target_cls = mapper.class_
 
-        evaluator_compiler = evaluator._EvaluatorCompiler(target_cls)
+        evaluator_compiler = evaluator._EvaluatorCompiler(
+            target_cls, params if isinstance(params, dict) else None
+        )
         crit = ()
         if statement._where_criteria:
             crit += statement._where_criteria
@@ -1039,7 +1043,7 @@ class _BulkUDCompileState(_ORMDMLState):
 
         try:
             eval_condition = cls._eval_condition_from_statement(
-                update_options, statement
+                update_options, statement, params
             )
 
         except evaluator.UnevaluatableError:
@@ -1072,7 +1076,7 @@ class _BulkUDCompileState(_ORMDMLState):
     ):
         try:
             eval_condition = cls._eval_condition_from_statement(
-                update_options, statement
+                update_options, statement, params
             )
 
         except evaluator.UnevaluatableError as err:
@@ -1870,7 +1874,9 @@ class _BulkORMUpdate(_BulkUDCompileState, UpdateDMLState):
 
         mapper = update_options._subject_mapper
         target_cls = mapper.class_
-        evaluator_compiler = evaluator._EvaluatorCompiler(target_cls)
+        evaluator_compiler = evaluator._EvaluatorCompiler(
+            target_cls, effective_params
+        )
         resolved_values = cls._get_resolved_values(mapper, statement)
         resolved_keys_as_propnames = cls._resolved_keys_as_propnames(
             mapper, resolved_values
